@@ -93,6 +93,9 @@ pub struct SessionSpec {
     /// manager cache is keyed by path, so this session gets its own ShardFileManager over the shared
     /// directory, as a second process would
     pub cache_alias: Option<usize>,
+    /// the store answers every successful shard upload with "already exists" (Ok(false)), as a server does
+    /// when a retried request arrives twice
+    pub shard_reply_exists: bool,
 }
 
 pub struct FileOutcome {
@@ -189,6 +192,7 @@ pub fn run_session(d: &Dirs, spec: &SessionSpec, plan: Plan, policy: ErrPolicy) 
         let fut = async move {
             let mut plan = plan;
             plan.delay_seed = spec.delay_seed;
+            plan.shard_reply_exists = spec.shard_reply_exists;
             if plan.max_delay_us == 0 {
                 plan.max_delay_us = 1500;
             }
@@ -997,6 +1001,7 @@ pub fn gen_history(rng: &mut Rng, l: &Limits, o: &GenOpts) -> Vec<SessionSpec> {
             cache_idx,
             // "another process": a later session of the shared cache through its own manager instance
             cache_alias: if !fresh && si > 0 && rng.chance(1, 4) { Some(si) } else { None },
+            shard_reply_exists: rng.chance(1, 5),
         });
     }
     sessions
@@ -1004,7 +1009,7 @@ pub fn gen_history(rng: &mut Rng, l: &Limits, o: &GenOpts) -> Vec<SessionSpec> {
 
 pub fn session_json(s: &SessionSpec) -> Value {
     json!({
-        "workers": s.workers, "concurrent": s.concurrent, "own_manager_instance_via_alias_path": s.cache_alias.is_some(), "global_dedup_fresh_cache": s.fresh_cache_global_dedup, "delays": s.delay_seed.is_some(),
+        "workers": s.workers, "concurrent": s.concurrent, "own_manager_instance_via_alias_path": s.cache_alias.is_some(), "global_dedup_fresh_cache": s.fresh_cache_global_dedup, "delays": s.delay_seed.is_some(), "shard_upload_reply_exists": s.shard_reply_exists,
         "salt_zero": s.salt == [0u8; 32],
         "files": s.files.iter().map(|f| json!({"len": f.bytes.len(), "cut_kind": f.cut_kind, "recipe": f.recipe.iter().map(|x| x.to_json()).collect::<Vec<_>>()})).collect::<Vec<_>>()
     })
